@@ -16,6 +16,15 @@ Routes ("the other way in"): an operation name may carry a route suffix, "<opera
 qwrite+qread / copy.deepcopy as ways of obtaining an independent copy, qread and read(tag_filter=...) as ways of
 re-reading into a live object, a DB() that never read anything).  Route operations are offered as the FIRST operation
 of a history; everything after them is the ordinary alphabet.
+
+Beyond the small scope: COUNT ladders - for every n in 1..40 and 63 64 65 100 127 128 129 255 256 257 999 1000 1001 1025
+(thorough: 2500 2501 5000) a tag file with n packages on one line, n tags for one package, n lines, and an insert of n tags
+of which two / half / all are new followed by a second insert carrying ONE of the new tags (every tag is then read, the
+sibling new tags included); each file is read with and without tag_filter, from three kinds of line source, through the
+module-level readers, and extended by five short histories.  DEEP-NARROW histories: every history of depth 5 (thorough 6)
+over a pool of three live objects - insert into any live object (existing tag / new tag), copy, reverse_copy,
+filter_tags_copy of any live object - with the whole pool re-observed after every step.  Both reuse the reference
+relation, the defect model and the observation above; signatures start with "ladder/<family>/" and "deep/".
 """
 import re
 
@@ -26,7 +35,9 @@ LEVEL = "model_checking"
 RULE = ("states = pools of <= 3 DB objects reached by histories over read/insert/derivation operations (history = "
         "state, rebuilt by replay); transitions = one operation applied to implementation and reference relation; "
         "traces = complete histories replayed; non-trivial = histories whose last step leaves >= 2 specified objects "
-        "or touches an object created by an earlier derivation")
+        "or touches an object created by an earlier derivation; ladders: one state / trace per (family, n, arrangement, tag "
+        "filter, reading or history), transitions = its operations, non-trivial when n >= 4; deep: states / transitions = "
+        "histories over the three-object alphabet, traces = the complete ones, non-trivial = two or more specified objects")
 BUDGET = {"quick": 240, "thorough": 3000}
 KF_SIG = "debtags.insert/new-tag/multichar-name"
 
@@ -74,7 +85,8 @@ def bounds(tier):
             "query_aliases": "every history that is extended further (length < depth) is also read through hasPackage, "
                              "hasTag, tagsOfPackage, packagesOfTag, packageCount, tagCount, iterPackages, iterTags, "
                              "iterPackagesTags, iterTagsPackages; discriminance(tag) is read at every observation",
-            "insert_argument": "the set handed to insert() is changed by the caller right after every insert"}
+            "insert_argument": "the set handed to insert() is changed by the caller right after every insert",
+            "beyond_the_small_scope": ladder_bounds(tier)}
 
 
 def assumptions():
@@ -85,6 +97,12 @@ def assumptions():
             "a route suffix (x@alias, copy@pickle, read@qread ...) changes how the implementation is driven, never what "
             "the reference expects: camelCase names are documented pass-through wrappers; deepcopy / pickle / "
             "qwrite+qread of a database give an independent database with the same pairs",
+            "ladders and deep histories: the statement bounds neither the packages per line, the tags per package or per insert, "
+            "the lines per file nor the length of a history; they stay inside the domain above (distinct package names, no "
+            "re-insert); where a ladder history inserts a package with a multi-character name under a new tag (also through "
+            "facet_collection) the open known finding applies and is attributed by the defect model exactly as in the small "
+            "scope; ladders are exhaustive in n with four or five arrangements per n, the deep histories exhaustive over their "
+            "alphabet to the stated depth",
             "discriminance(tag) = min(card, package_count - card) as its docstring defines it",
             "left out: tags_of_packages / packages_of_tags (docstring says 'all', the code computes a union - the "
             "statement names neither), ideal_tagset, correlations, relevance_index_function, dump / dump_reverse / "
@@ -590,6 +608,267 @@ def route_first_ops(m):
     return cheap, alias
 
 
+
+# ------------------------------------------------------------------------------------------------ beyond the small scope
+# COUNT ladders over the repeatable elements of a tag collection (packages per line, tags per package, tags per insert,
+# lines per file) and DEEP-NARROW histories over three live objects.  The machinery above reads its universe (FILES,
+# TAGSETS) from module globals; a ladder / deep case generates its own universe from the compact case and installs it for
+# the duration of the case (workers and replay children are single-threaded), so the reference relation, the defect
+# model and the observation are exactly those of the small scope.
+
+LADDER_NS = list(range(1, 41)) + [63, 64, 65, 100, 127, 128, 129, 255, 256, 257, 999, 1000, 1001, 1025, 2500, 2501, 5000]
+LADDER_FAMS = {
+    "ladder/packages-per-line": ["one-line", "after-a-short-line", "multichar-names", "no-tags"],
+    "ladder/tags-per-package": ["plain", "facets", "two-packages-share", "filtered-half"],
+    "ladder/tags-per-insert": ["two-new-sorting-last", "two-new-sorting-first", "all-new", "half-new", "two-new-multichar-package"],
+    "ladder/lines-per-file": ["one-package", "two-packages", "every-third-without-tags", "last-line-unterminated"],
+}
+LADDER_TOP = {"quick": 1025, "thorough": 5000}      # the observation is quadratic (every package x every tag)
+LADDER_READ_KINDS = ("list", "generator", "stringio")
+LADDER_MODULE_ROUTES = ("read_tag_database", "read_tag_database_reversed", "read_tag_database_both_ways", "parse_tags")
+DEEP_PK = ["c", "d", "e", "f", "g", "h", "i"]
+DEEP_FILES = [[], ["a: t, u::x\n", "b: t\n"], ["a: t\n"]]
+DEEP_TAGSETS = [("t",), ("u::x", "w")]
+DEEP_DEPTH = {"quick": 5, "thorough": 6}
+
+
+class _universe(object):
+    """install another universe of tag files and tag sets for the functions above"""
+
+    def __init__(self, files, tagsets):
+        self.new = (files, tagsets)
+
+    def __enter__(self):
+        g = globals()
+        self.old = (g["FILES"], g["TAGSETS"])
+        g["FILES"], g["TAGSETS"] = self.new
+
+    def __exit__(self, *a):
+        g = globals()
+        g["FILES"], g["TAGSETS"] = self.old
+        return False
+
+
+def ladder_bounds(tier):
+    return {"counts": "n = 1..40, 63, 64, 65, 100, 127, 128, 129, 255, 256, 257, 999, 1000, 1001, 1025 (every n)%s; with a tag_filter as "
+                      "well up to 257 at quick, always at thorough"
+                      % ("; 2500, 2501, 5000 in the thorough tier (the complete observation is quadratic)" if tier == "quick" else ", 2500, 2501, 5000"),
+            "count_families": dict(LADDER_FAMS),
+            "count_meaning": {"ladder/packages-per-line": "a file with one line naming n packages (single-character and longer names, with "
+                                                          "and without tags, alone and after a short line)",
+                              "ladder/tags-per-package": "a file whose first line gives one package n tags (plain, faceted, shared with a "
+                                                         "second package, every second one of the u:: facet kept by the tag filter)",
+                              "ladder/tags-per-insert": "a database read from two lines, then insert(c, n tags of which 2 / all / half are new to "
+                                                        "the database), then a second insert carrying ONE of the new tags (directly, into a copy, "
+                                                        "or after another insert) - the observation reads every tag, the sibling new tags included",
+                              "ladder/lines-per-file": "a file of n lines (one or two packages per line, 7 tags in rotation, lines without tags)"},
+            "per_ladder_file": "DB.read with and without tag_filter, the line source as %s, the module-level readers %s, and the histories %s"
+                               % (LADDER_READ_KINDS, LADDER_MODULE_ROUTES, "copy+insert, insert+reverse_copy, facet, insert(new tag), "
+                                                                           "filter_tags_copy+insert"),
+            "deep": {"depth": DEEP_DEPTH[tier], "pool": 3, "starts": "DB().read(%r), DB() that never read" % (DEEP_FILES[1],),
+                     "alphabet": "for each live object o: insert(o, next unused package of %s, %r), insert(o, ..., %r), and - while fewer than "
+                                 "three objects are alive - copy(o), reverse_copy(o), filter_tags_copy(o); every object left behind is "
+                                 "re-observed after every step" % (DEEP_PK, DEEP_TAGSETS[0], DEEP_TAGSETS[1])}}
+
+
+def _names(prefix, n):
+    return ["%s%d" % (prefix, i) for i in range(n)]
+
+
+def ladder_items(fam, n, arr):
+    """-> (lines of the tag file, tag sets for insert, histories)"""
+    std_tagsets = [("t0",), ("znew",), ("t0", "znew", "u::new")]
+    std_hists = [[("copy", 0), ("insert", 1, "z", 1)], [("insert", 0, "z", 0), ("reverse_copy", 0)], [("facet", 0)],
+                 [("insert", 0, "z", 2), ("copy", 0), ("insert", 1, "y", 1)], [("ftc", 0), ("insert", 1, "z", 0)]]
+    if fam == "ladder/packages-per-line":
+        pk = _names("p", n) if arr != "one-line" else [c for c in "abcdefghijklmnopqrstuvwx"[:n]] + _names("p", max(0, n - 24))
+        line = ", ".join(pk) + (": t0, u::x, t1\n" if arr != "no-tags" else "\n")
+        lines = [line, "last: t0\n"] if arr != "after-a-short-line" else ["first: t1\n", line]
+        return lines, std_tagsets, std_hists
+    if fam == "ladder/tags-per-package":
+        if arr == "facets":
+            tags = ["f%d::v%d" % (i % 7, i) for i in range(n)]
+        elif arr == "filtered-half":
+            tags = [("u::k%d" if i % 2 else "k%d") % i for i in range(n)]
+        else:
+            tags = _names("t", n)
+        lines = ["a: " + ", ".join(tags) + "\n", "b: t0\n" if arr != "two-packages-share" else "b, cc: " + ", ".join(tags[::2]) + "\n"]
+        return lines, std_tagsets, std_hists
+    if fam == "ladder/lines-per-file":
+        lines = []
+        for i in range(n):
+            ps = "k%d" % i if arr != "two-packages" else "k%d, m%d" % (i, i)
+            if arr == "every-third-without-tags" and i % 3 == 2:
+                lines.append(ps + "\n")
+            else:
+                lines.append("%s: t%d, u::x%d, t0\n" % (ps, i % 7, i % 3))
+        if arr == "last-line-unterminated":
+            lines[-1] = lines[-1][:-1]
+        return lines, std_tagsets, std_hists
+    if fam == "ladder/tags-per-insert":
+        if arr == "all-new":
+            old, new = [], _names("n", n)
+        elif arr == "half-new":
+            old, new = _names("e", n - (n + 1) // 2), _names("n", (n + 1) // 2)
+        elif arr == "two-new-sorting-first":
+            old, new = _names("e", max(0, n - 2)), ["a-new1", "a-new2"][:n]
+        else:
+            old, new = _names("e", max(0, n - 2)), ["zz-new1", "zz-new2"][:n]
+        lines = ["a: " + ", ".join(old or ["t"]) + "\n", "b: " + (old[0] if old else "t") + "\n"]
+        big = tuple(old + new)
+        tagsets = [big, (new[0],), (new[-1],), (new[len(new) // 2], old[0] if old else "t")]
+        c, d, f = ("c", "d", "f") if arr != "two-new-multichar-package" else ("cc", "dd", "ff")
+        hists = [[("insert", 0, c, 0), ("insert", 0, d, 1)],
+                 [("insert", 0, c, 0), ("insert", 0, d, 2)],
+                 [("insert", 0, c, 0), ("copy", 0), ("insert", 1, d, 3)],
+                 [("insert", 0, c, 0), ("insert", 0, d, 2), ("insert", 0, f, 1)],
+                 [("copy", 0), ("insert", 1, c, 0), ("insert", 0, d, 1), ("insert", 1, f, 2)]]
+        return lines, tagsets, hists
+    raise AssertionError(fam)
+
+
+def run_ladder_case(case):
+    """-> [(sig, expected, observed)] - signatures start with the family; the known finding keeps its own signature"""
+    fam, n, arr, tf = case["ladder"], case["n"], case["arr"], case["tf"]
+    lines, tagsets, hists = ladder_items(fam, n, arr)
+    pre = fam + "/"
+    with _universe([[], lines], tagsets):
+        what = case["what"]
+        if what[0] == "read":
+            bad = read_kind(1, tf, what[1])
+            return [(pre + "debtags/read-%s/%s" % (what[1], bad[0]), core._short(bad[1], 300), core._short(bad[2], 300))] if bad else []
+        if what[0] == "module":
+            bad = module_route(1, tf, what[1])
+            return [(pre + "debtags/via-%s/%s" % (what[1], bad[0]), core._short(bad[1], 300), core._short(bad[2], 300))] if bad else []
+        hist = [tuple(op) for op in hists[what[1]]]
+        verdict, _m, detail = judge(1, tf, hist, 0, "read", True)
+        if verdict == "ok":
+            return []
+        if verdict == "known":
+            return [(KF_SIG, core._short(detail[2], 300), core._short(detail[3], 300))]
+        k, w, exp, obs = detail
+        return [(pre + sig_for(hist, k, w, "read"), core._short(exp, 300), core._short(obs, 300))]
+
+
+def _n_class(n):
+    return "n<=3" if n <= 3 else "n<=40" if n <= 40 else "n<=257" if n <= 257 else "n<=1025" if n <= 1025 else "n>=2500"
+
+
+def ladder_ns(tier):
+    return [n for n in LADDER_NS if n <= LADDER_TOP[tier]]
+
+
+def _ladder_unit(part, u, tier):
+    fam, arr = u["ladder"], u["arr"]
+    last = None
+    for n in ladder_ns(tier):
+        nh = len(ladder_items(fam, n, arr)[2])
+        for tf in ((False, True) if (n <= 257 or tier != "quick") else (False,)):
+            whats = [("history", i) for i in range(nh)]
+            if fam != "ladder/tags-per-insert":
+                whats = [("read", k) for k in LADDER_READ_KINDS] + [("module", r) for r in LADDER_MODULE_ROUTES] + whats
+            for what in whats:
+                case = {"ladder": fam, "n": n, "arr": arr, "tf": tf, "what": list(what)}
+                bad = run_ladder_case(case)
+                part.states += 1
+                part.transitions += 1 if what[0] != "history" else len(ladder_items(fam, n, arr)[2][what[1]])
+                part.traces += 1
+                part.evaluations += 1
+                known = [b for b in bad if b[0] == KF_SIG]
+                part.outcomes["%s %s %s %s: %s" % (fam, arr, _n_class(n), what[0], "behind-known-defect" if known else "VIOLATION" if bad else "agrees")] += 1
+                part.extra["ladder cases"] += 1
+                if n >= 4:
+                    part.nontrivial += 1
+                for sig, exp, obs in bad:
+                    part.violation(sig, case, exp, obs, rank=n)
+                last = case
+        part.max_depth = max(part.max_depth, 4)
+    part.sample(last)
+    return part
+
+
+# ---- deep-narrow histories: three live objects edited alternately
+
+def deep_ops(models):
+    used = set()
+    for m in models:
+        used |= set(m.db) | set(m.rdb)
+    fresh = [p for p in DEEP_PK if p not in used]
+    out = []
+    for o, m in enumerate(models):
+        if not m.ok:
+            continue
+        if fresh:
+            out.append(("insert", o, fresh[0], 0))
+            out.append(("insert", o, fresh[0], 1))
+        if len(models) < 3:
+            out += [("copy", o), ("reverse_copy", o), ("ftc", o)]
+    return out
+
+
+def run_deep_case(case):
+    hist = [tuple(op) for op in case["history"]]
+    with _universe(DEEP_FILES, DEEP_TAGSETS):
+        verdict, _m, detail = judge(case["file"], False, hist, 0, case.get("start", "read"), True)
+    if verdict == "ok":
+        return []
+    if verdict == "known":
+        return [(KF_SIG, detail[2], detail[3])]
+    k, w, exp, obs = detail
+    return [("deep/" + sig_for(hist, k, w, case.get("start", "read")), exp, obs)]
+
+
+def _deep_unit(part, u, tier):
+    depth = DEEP_DEPTH[tier]
+    fi, start = u["file"], u.get("start", "read")
+    base = {"deep": True, "file": fi}
+    if start != "read":
+        base["start"] = start
+
+    def rec(hist):
+        with _universe(DEEP_FILES, DEEP_TAGSETS):
+            # the whole pool is observed after EVERY step of the replay (check_from = 0): an object left behind two steps
+            # ago is looked at again each time
+            verdict, models, detail = judge(fi, False, hist, 0, start, len(hist) == depth)
+        part.transitions += 1
+        part.evaluations += 1
+        part.states += 1
+        case = dict(base, history=[list(op) for op in hist])
+        if verdict != "ok":
+            for sig, exp, obs in run_deep_case(case):
+                part.violation(sig, case, exp, obs, rank=len(hist))
+            if verdict == "violation":
+                return
+        part.outcomes["deep:" + hist[-1][0] + (" pool=%d" % len(models))] += 1
+        if sum(1 for m in models if m.ok) >= 2:
+            part.nontrivial += 1
+        if len(hist) >= depth:
+            part.traces += 1
+            part.extra["deep histories"] += 1
+            return
+        with _universe(DEEP_FILES, DEEP_TAGSETS):
+            ops = deep_ops(models)
+        for op in ops:
+            rec(hist + [op])
+    rec([tuple(u["first"])])
+    part.max_depth = depth
+    part.sample(dict(base, history=[list(u["first"]), ["copy", 0], ["insert", 1, "d", 1]]))
+    return part
+
+
+def deep_units():
+    out = []
+    for fi, start in ((1, "read"), (0, "fresh")):
+        mdb = parse_file(DEEP_FILES[fi], False)
+        with _universe(DEEP_FILES, DEEP_TAGSETS):
+            for op in deep_ops([M(mdb, m_rev(mdb), 0)]):
+                u = {"deep": True, "file": fi, "first": list(op)}
+                if start != "read":
+                    u["start"] = start
+                out.append(u)
+    return out
+
+
 def units(tier, seed):
     out = []
     routes = []
@@ -610,15 +889,24 @@ def units(tier, seed):
         if start == "read" and (fi, tf) in (ALIAS_STARTS_QUICK if tier == "quick" else ALIAS_STARTS_THOROUGH):
             for op in alias:
                 routes.append(dict({"file": fi, "tf": tf, "first": op}, **extra))
-    return out + routes
+    ladders = [{"ladder": f, "arr": a} for f in sorted(LADDER_FAMS) for a in LADDER_FAMS[f]]
+    return out + routes + ladders + deep_units()
 
 
 def unit_cost(u, tier):
+    if u.get("ladder"):
+        return 60
+    if u.get("deep"):
+        return 80
     return 1 if u.get("less") else 40
 
 
 def run_unit(u, tier, seed):
     part = core.Part()
+    if u.get("ladder"):
+        return _ladder_unit(part, u, tier)
+    if u.get("deep"):
+        return _deep_unit(part, u, tier)
     depth = (3 if tier == "quick" else 4) - u.get("less", 0)
     fi, tf = u["file"], u["tf"]
     start = u.get("start", "read")
@@ -686,6 +974,10 @@ def run_unit(u, tier, seed):
 
 
 def replay(case):
+    if case.get("ladder"):
+        return run_ladder_case(case)
+    if case.get("deep"):
+        return run_deep_case(case)
     if case.get("module_route"):
         bad = module_route(case["file"], case["tag_filter"], case["module_route"])
         return [("debtags/via-%s/%s" % (case["module_route"], bad[0]), bad[1], bad[2])] if bad else []
